@@ -52,6 +52,13 @@ def cases(shard, rnd):
                'tails': rnd.sample(_tails(rnd, frames[0].data), 4)}
     # frames larger than the default frame-max are valid (frame-max is
     # negotiated); they must be consumed exactly like any other frame
+    # a body frame without payload (what marshal(ContentBody(b'')) emits)
+    for k in range(3):
+        frames = [wire.any_frame(rnd), wire.body_frame(rnd, 0),
+                  wire.any_frame(rnd)]
+        yield {'type': 'stream', 'frames': [bytes(f.data) for f in frames],
+               'kinds': [f.kind for f in frames],
+               'channels': [f.channel for f in frames], 'tails': [b'']}
     for n in ((131073, 262136) if shard['i'] < 2 else ()):
         big = wire.body_frame(rnd, n)
         small = [wire.any_frame(rnd) for _ in range(2)]
